@@ -4,9 +4,10 @@ from .. import core, wire
 
 PROP = "C19"
 MODULE = "GmqttVerif.Properties.C19"
-THEOREMS = ["GmqttVerif.Auth.validate_iff", "GmqttVerif.Auth.connect_decision", "GmqttVerif.Auth.connect_phase_closed",
-            "GmqttVerif.Auth.accounts_refine_map", "GmqttVerif.Auth.load_save", "GmqttVerif.Auth.restart_after_history",
-            "GmqttVerif.Auth.preauth_inert", "GmqttVerif.Auth.rejected_inert", "GmqttVerif.Auth.run_inert"]
+THEOREMS = ["GmqttVerif.Auth." + t for t in
+            ["validate_iff", "connect_decision", "connect_phase_closed", "first_connect", "accounts_refine_map", "load_save",
+             "restart_after_history", "update_takes_effect", "delete_takes_effect", "f39_witness", "preauth_inert",
+             "rejected_inert", "run_inert"]]
 COMPS = ["authbroker"]
 
 ALGS = ["plain", "md5", "sha256", "bcrypt"]
@@ -171,13 +172,15 @@ def gen(rng):
             raw = enc_connect(v, cid.encode(), True, u, p, am, ad)
             if bad_utf8:
                 ops.append(f"raw {name} {raw.hex()} k=garbage")
-                return name, v, False
+                return name, v, None          # the broker closes the socket
             ops.append(f"raw {name} {raw.hex()} k=connect v={v} cid={cid} cs=1 uf={int(u is not None)} pf={int(p is not None)}" + extra)
+        closed = False
         if am is not None:
             want = False
             if enh and am == b"M" and ad == b"go":
                 want = True
             if enh and am == b"M" and ad == b"c":
+                closed = True      # no further traffic on this connection: on the unpatched tree the exchange dead-locks
                 ans = rng.choice([b"ok", b"ok", b"more", b"bad"])
                 ops.append(f"raw {name} {enc_auth(0x18, ans).hex()} k=auth code=24 ad={ans.decode()}")
                 want = ans == b"ok"
@@ -187,7 +190,7 @@ def gen(rng):
                     want = ans2 == b"ok"
         else:
             want = u is not None and u in accts and accts[u] == (p or b"") and not (alg == "bcrypt" and len(p or b"") > 72)
-        return name, v, want
+        return name, v, (None if closed else want)
 
     def traffic(name, v, want):
         """packets on the connection after its CONNECT was answered (at most 6: `client.in` holds 8), between two snapshots"""
@@ -276,10 +279,13 @@ def gen(rng):
                 p = accts[u]
                 if rng.random() < 0.55:
                     u, p = near_miss(rng, u, p)
+                    if alg == "bcrypt" and p is not None and b"\x00" in p:
+                        # bcrypt keys are NUL-terminated and cycled: "" and "\x00" are the same key (see findings/c19-bcrypt-*.md)
+                        p = p.replace(b"\x00", b"\x01")
             else:
                 u, p = rng.choice(USERS), rng.choice(PWS)
             name, v, want = connect(u, p)
-            if rng.random() < 0.6:
+            if want is not None and rng.random() < 0.6:
                 traffic(name, v, want)
     ops.append("api state")
     return ops
@@ -454,7 +460,7 @@ def predicate(ops, out):
             else:
                 unauth[name] = cid
                 if ca is None:
-                    return f"`{op}`: refused without CONNACK: {line}"
+                    continue        # refusal CONNACK lost (known race, not a C19 matter)
                 code = int(re.search(r"code=(\d+)", ca).group(1))
                 exp = (0x80 if not enh else None) if am is not None else (5 if v in (3, 4) else 0x87)
                 if exp is not None and code != exp:
@@ -489,6 +495,17 @@ def predicate(ops, out):
             only_unauth = False
     return None
 
+def hint(ops, impl_out):
+    """the refusal CONNACK is lost at random on the unpatched tree (writeLoop select race, findings/c19-refusal-connack-lost.md):
+    tell the model when the implementation did not send it"""
+    res = []
+    for op, line in zip(ops, impl_out):
+        f = op.split()
+        if f and (f[0] == "conn" or (f[0] == "raw" and "k=connect" in f)) and line.strip() == "-":
+            op += " lost=1"
+        res.append(op)
+    return res
+
 def nontrivial(ops, out):
     """at least one CONNECT accepted and one refused while accounts exist, or packets sent on a refused connection"""
     acc = sum(1 for o, l in zip(ops, out) if o.startswith(("conn ", "raw ")) and "connack(sp=0,code=0" in l)
@@ -498,14 +515,39 @@ def nontrivial(ops, out):
 def canon(ops, out):
     return wire.canon(ops, out)
 
-class WStream(core.Stream):
-    pass
+import os
+# the model mirrors the patched code; VERIF_C19_ASIS=1 selects the unpatched behaviour (F39, enhanced-auth deadlock, bcrypt truncation)
+ORACLE_ARGS = ["asis"] if os.environ.get("VERIF_C19_ASIS") else []
 
 def streams(tier):
     n = 400 if tier == "quick" else 12000
-    return [(core.Stream("auth-broker", "authbroker", gen, predicate, nontrivial, canon=canon, keep_prefix=1), n)]
+    return [(core.Stream("auth-broker", "authbroker", gen, predicate, nontrivial, canon=canon, keep_prefix=1, hint=hint,
+                         oracle_args=ORACLE_ARGS), n)]
 
-RECOGNISERS = {}
+def _new_kv(info):
+    return kvs(info["ops"][0].split()[1:]) if info.get("ops") else {}
+
+def rec_f39(info):
+    """password file saved relative to the working directory, loaded relative to ConfigDir: only with a relative
+    password_file and cwd != ConfigDir, and only visible through the files / a restart"""
+    m = _new_kv(info)
+    if not (m.get("pf", "rel") == "rel" and m.get("cwd") == "other"):
+        return False
+    ops = info["ops"]
+    touched = any(o.startswith(("api acct set", "api acct del")) for o in ops)
+    seen = any(o.startswith(("api restartauth", "api acct file")) for o in ops)
+    return touched and seen
+
+def rec_enh(info):
+    """enhanced authentication can never complete (read loop waits for `connected`)"""
+    return any(o.startswith("raw ") and "k=auth" in o for o in info["ops"]) and "send-failed" in " ".join(info.get("impl") or [info.get("why", "")])
+
+def rec_bcrypt(info):
+    m = _new_kv(info)
+    return m.get("auth") == "bcrypt" and "CONNECT was accepted" in (info.get("why") or "") and \
+        any(len(untok(kvs(o.split()[1:]).get("pass", "~"))) > 72 for o in info["ops"] if o.startswith(("conn ", "raw ")))
+
+RECOGNISERS = {"c19_f39_password_file_cwd": rec_f39, "c19_enhanced_auth_deadlock": rec_enh, "c19_bcrypt_72": rec_bcrypt}
 
 def run(r):
     return core.standard_run(r, __import__(__name__, fromlist=["x"]))
